@@ -22,6 +22,7 @@
   blanks collapsed, the method of a word defaults to `term`, of a phrase to `match_phrase`).
 -/
 import Luqum.Generated.Es
+import Luqum.Props.C07
 
 namespace Luqum.Props.GenEs
 open Luqum Generated PyPrim
@@ -61,6 +62,16 @@ theorem isShould_is_generated (c : EsCfg) (t : Tree) :
   | range _ _ _ _ _ => simp only [EsCfg.isShould, Tree.className] <;> decide
   | boost _ _ _ => simp only [EsCfg.isShould, Tree.className] <;> decide
   | none _ => simp only [EsCfg.isShould, Tree.className] <;> decide
+
+/-- the AND-like / OR-like predicates in which `refuses_exactly` (Props/C07) states which queries the builder refuses
+are the translated tables of `_is_must` / `_is_should` -/
+theorem spec_andLike_is_generated (c : EsCfg) (t : Tree) :
+    Luqum.Props.C07.andLike c t = look Es.isMustTable c.defaultMust t.className := by
+  rw [Luqum.Props.C07.andLike_eq, isMust_is_generated]
+
+theorem spec_orLike_is_generated (c : EsCfg) (t : Tree) :
+    Luqum.Props.C07.orLike c t = look Es.isShouldTable c.defaultMust t.className := by
+  rw [Luqum.Props.C07.orLike_eq, isShould_is_generated]
 
 /-- lookup in the generated table of refused (parent, child) pairs -/
 def refused (defaultMust : Bool) (parent child : String) : Bool :=
